@@ -738,6 +738,28 @@ func (g *Gen) opModSvcCall() {
 	g.r.Msg(types.NewMsgCallService(modSvcName, []sdk.AccAddress{g.r.w.a.modSvcProvider}, cons, `{"header":{},"body":{"pair":"a-b"}}`, coins(cap), 1, false, false, 0, 0), "module-service")
 }
 
+// opParams: governance changes a parameter on the live chain (never the minimum-deposit
+// terms or the base denomination, see World.ChangeParams).
+func (g *Gen) opParams() {
+	np := g.p
+	fresh := RandParams(g.rng)
+	switch g.rng.Intn(4) {
+	case 0:
+		np.MaxRequestTimeout = fresh.MaxRequestTimeout
+		if g.rng.Intn(2) == 0 {
+			np.MaxRequestTimeout = 1 // below the timeout of most live contexts
+		}
+	case 1:
+		np.ServiceFeeTax = fresh.ServiceFeeTax
+	case 2:
+		np.SlashFraction = fresh.SlashFraction
+	case 3:
+		np.ComplaintRetrospect, np.ArbitrationTimeLimit = fresh.ComplaintRetrospect, fresh.ArbitrationTimeLimit
+	}
+	g.r.ChangeParams(np)
+	g.p = np
+}
+
 func (g *Gen) opRestart() {
 	if g.rng.Intn(2) == 0 {
 		g.r.Restart()
@@ -766,7 +788,7 @@ func (g *Gen) Step() {
 		{2, g.opDefine}, {5, func() { g.opBind(false) }}, {5, g.opUpdateBinding}, {3, g.opDisable}, {3, g.opEnable}, {3, g.opRefund},
 		{2, g.opSetWithdraw}, {10, g.opCall}, {18, g.opRespond}, {3, func() { g.opCtxControl(0) }}, {3, func() { g.opCtxControl(1) }},
 		{2, func() { g.opCtxControl(2) }}, {3, func() { g.opCtxControl(3) }}, {5, g.opWithdraw}, {24, g.opBlock},
-		{3, g.opModCreate}, {3, g.opModControl}, {3, g.opModSvcCall}, {1, g.opRestart},
+		{3, g.opModCreate}, {3, g.opModControl}, {3, g.opModSvcCall}, {1, g.opRestart}, {1, g.opParams},
 	}
 	tot := 0
 	for _, o := range ops {
